@@ -8,5 +8,5 @@ CONSTANTS
   Families <- NoFam
   SoupAlphabet <- SoupSmall
   MaxSoup = 0
-INVARIANT EmitTree
+INVARIANT EmitTie
 CHECK_DEADLOCK FALSE
